@@ -135,6 +135,17 @@ func c18OpTag(o c18Op) string {
 	return o.kind
 }
 
+// c18Try runs one call of the implementation; a panic escaping it is an observation, not a crash
+// of the harness.
+func c18Try(f func() bool) (ok bool, panicked bool) {
+	defer func() {
+		if r := recover(); r != nil {
+			ok, panicked = false, true
+		}
+	}()
+	return f(), false
+}
+
 type c18Env struct {
 	c    *Ctx
 	dir  string
@@ -280,27 +291,31 @@ func (v *c18Env) run(id, name, text string, ops []c18Op, clean bool) {
 				panic(err)
 			}
 		}
-		ok := false
-		switch o.kind {
-		case "load":
-			ok = e.LoadPolicy() == nil
-		case "lf":
-			if o.incr {
-				ok = e.LoadIncrementalFilteredPolicy(c18FilterArg(o)) == nil
-			} else {
-				ok = e.LoadFilteredPolicy(c18FilterArg(o)) == nil
+		ok, panicked := c18Try(func() bool {
+			switch o.kind {
+			case "load":
+				return e.LoadPolicy() == nil
+			case "lf":
+				if o.incr {
+					return e.LoadIncrementalFilteredPolicy(c18FilterArg(o)) == nil
+				}
+				return e.LoadFilteredPolicy(c18FilterArg(o)) == nil
+			case "save":
+				return e.SavePolicy() == nil
+			case "add":
+				var added bool
+				var err error
+				if o.key == "g" {
+					added, err = e.AddGroupingPolicy(o.rule)
+				} else {
+					added, err = e.AddPolicy(o.rule)
+				}
+				return added && err == nil
 			}
-		case "save":
-			ok = e.SavePolicy() == nil
-		case "add":
-			var added bool
-			var err error
-			if o.key == "g" {
-				added, err = e.AddGroupingPolicy(o.rule)
-			} else {
-				added, err = e.AddPolicy(o.rule)
-			}
-			ok = added && err == nil
+			panic("c18: bad op kind")
+		})
+		if panicked {
+			c.Direct(id, "the call panicked: "+c18OpTag(o), c18Replay(name, text, ops))
 		}
 		if o.io {
 			if err := os.Rename(v.path+".away", v.path); err != nil {
@@ -553,7 +568,21 @@ func (u *c18Universe) randOp(c *Ctx, messy bool) c18Op {
 }
 
 func (u *c18Universe) randFile(c *Ctx, maxLines int, messy bool) string {
-	n := c.Rng.Intn(maxLines + 1)
+	// mostly full-length files: 0 lines 3%, then weights growing with the length
+	n := maxLines
+	switch x := c.Rng.Intn(100); {
+	case x < 3:
+		n = 0
+	case x < 15:
+		n = 1
+	case x < 40:
+		n = 2
+	case x < 70 && maxLines > 3:
+		n = 3
+	}
+	if n > maxLines {
+		n = maxLines
+	}
 	ls := make([]string, n)
 	for i := range ls {
 		if messy && c.Rng.Intn(4) == 0 {
@@ -665,12 +694,12 @@ func init() {
 			blockA(flat, 2, 2)
 			blockA(dom, 1, 1)
 			blockA(dom, 2, 12)
-			blockB(flat, 3500, 3, 3, false)
-			blockB(flat, 3500, 3, 3, true)
-			blockB(dom, 2000, 3, 3, false)
-			blockB(dom, 2000, 3, 3, true)
-			blockB(flat2, 1000, 3, 3, false)
-			blockB(flat2, 500, 3, 3, true)
+			blockB(flat, 6000, 3, 3, false)
+			blockB(flat, 7000, 3, 3, true)
+			blockB(dom, 3500, 3, 3, false)
+			blockB(dom, 3500, 3, 3, true)
+			blockB(flat2, 1500, 3, 3, false)
+			blockB(flat2, 1000, 3, 3, true)
 		}
 
 		// ---- the CSV stream for Csv.v
